@@ -33,3 +33,13 @@ Definition varint_dec (bs : bytes) : option (N * bytes) :=
       end
     else Some (d, r)
   end.
+
+(* number of bytes a failing ReadVarUint has consumed from the reader (the
+   discriminant and whatever io.ReadFull got of the rest) *)
+Definition varint_fail_consumed (bs : bytes) : nat :=
+  match bs with
+  | [] => O
+  | d :: r =>
+    let w := if d =? 255 then 8%nat else if d =? 254 then 4%nat else if d =? 253 then 2%nat else O in
+    S (Nat.min w (length r))
+  end.
